@@ -222,3 +222,17 @@ H("c17_call_matchers", "c17_matchers::c17_call_matchers", ["C17"],
   stubs=["IdentifierTracker::is_identifier_used -> solver-chosen answer for `assert` and for `debug` (the scope tracker, a Vec<HashSet<String>>, is the environment of the per-call decision)"],
   assumptions=["native replay runs the real rule end to end (darklua_core::process on in-memory resources) on `[local NAME = f] PREFIX(1)` and looks for the call in the output",
                "what replaces a matched call (argument preservation, select handling) and inject_global_value are outside the claim"])
+
+# ---------------------------------------------------------------------------------------- C18 location
+# c18_comment_location_* (the real AppendTextComment::process on an empty block, text() and ShiftTokenLine stubbed) are written in
+# harness/src/c18_location.rs but not registered: 107-146 k symex steps, yet the SAT conversion runs out of 16 GB even for a single
+# fully concrete scenario (str::lines / memchr searchers on the wrapper text).
+
+for n, tier in ((8, "quick"), (12, "thorough")):
+    H("c19_generator_name_%d" % n, "c19_config::c19_generator_name_%d" % n, ["C19"], ["impl FromStr for GeneratorParameters"],
+      "every ASCII string of length 0..=%d" % n, tier=tier, mode="lean", timeout_s=900, replay="generator_name_%d" % n,
+      stubs=["alloc::fmt::format -> empty string (only used for the error message)"],
+      assumptions=["the object form of the generator setting (serde derive, column_span) is outside the claim"])
+
+# c02_separator_* (ends_with_prefix / starts_with_parenthese over pairs of statements, harness/src/c02_separator.rs) are written but
+# not registered: building two Statement values with symbolic shapes costs 2.15 M symex steps and the SAT conversion runs out of 16 GB.
